@@ -60,11 +60,18 @@ fn elided_with_offsets(body: &[AOp]) -> Vec<(Option<usize>, &'static str)> {
 }
 
 pub fn run_case(case: &str, wasm: &[u8], variant: Variant, stats: &mut Stats) {
-    let only = format!("{:?} {}", variant, out::hex(wasm));
+    run_case_cfg(case, wasm, variant, false, stats)
+}
+
+/// `dwarf`: DWARF generation switched on as well (the map handed to custom sections must not depend
+/// on it)
+pub fn run_case_cfg(case: &str, wasm: &[u8], variant: Variant, dwarf: bool, stats: &mut Stats) {
+    let only = format!("{:?}{} {}", variant, if dwarf { "+D" } else { "" }, out::hex(wasm));
     let Ok(a) = decode::decode(wasm) else { return };
     let seen = Arc::new(Mutex::new(Seen::default()));
     let mut cfg = ModuleConfig::new();
     cfg.preserve_code_transform(true);
+    cfg.generate_dwarf(dwarf);
     let parsed = out::catch(|| cfg.parse(wasm));
     let Ok(Ok(mut m)) = parsed else {
         out::oracle(case, false, "C05:valid-module-rejected-or-panic", &format!("parse failed | only: {}", only));
@@ -289,16 +296,57 @@ pub fn many_with_imports(n: usize, pad: usize, imports: usize) -> Vec<u8> {
     m.finish()
 }
 
+/// `n` functions with one (used) i32 local each; the body of function 0 is exactly `size` bytes
+/// (local declaration included), so that body sizes sit on both sides of a LEB-length boundary
+pub fn exact_with_locals(n: usize, size: usize) -> Vec<u8> {
+    use wasm_encoder::*;
+    let mut m = wasm_encoder::Module::new();
+    let mut t = TypeSection::new();
+    t.function([], []);
+    m.section(&t);
+    let mut fs = FunctionSection::new();
+    for _ in 0..n {
+        fs.function(0);
+    }
+    m.section(&fs);
+    let mut ex = ExportSection::new();
+    for i in 0..n {
+        ex.export(&format!("__f{}", i), ExportKind::Func, i as u32);
+    }
+    m.section(&ex);
+    let mut code = CodeSection::new();
+    for i in 0..n {
+        let mut f = Function::new([(1, ValType::I32)]);
+        // body bytes: 3 (one group: count, n, type) + 3 per `local.get 0; drop`… + 1 (end)
+        let target = if i == 0 { size } else { 7 + 3 * (i % 3) };
+        let rem = target.saturating_sub(4);
+        f.instruction(&Instruction::LocalGet(0));
+        f.instruction(&Instruction::Drop);
+        for _ in 1..rem / 3 {
+            f.instruction(&Instruction::I32Const(5));
+            f.instruction(&Instruction::Drop);
+        }
+        for _ in 0..rem % 3 {
+            f.instruction(&Instruction::Nop);
+        }
+        f.instruction(&Instruction::End);
+        code.function(&f);
+    }
+    m.section(&code);
+    m.finish()
+}
+
 pub fn main(seed: u64, tier: &str, only: Option<&str>) {
     let mut stats = Stats::default();
     if let Some(o) = only {
         let (v, h) = o.split_once(' ').unwrap();
-        let v = match v {
+        let dwarf = v.ends_with("+D");
+        let v = match v.trim_end_matches("+D") {
             "Inserted" => Variant::Inserted,
             "Gc" => Variant::Gc,
             _ => Variant::Unchanged,
         };
-        run_case("replay", &out::unhex(h), v, &mut stats);
+        run_case_cfg("replay", &out::unhex(h), v, dwarf, &mut stats);
         return;
     }
     let n = if tier == "thorough" { 3000 * crate::out::thorough_scale() } else { 200 };
@@ -311,7 +359,7 @@ pub fn main(seed: u64, tier: &str, only: Option<&str>) {
         g.extern_elem_global = false;
         let (wasm, _) = gen::gen_valid(&mut rng, &g);
         let v = [Variant::Unchanged, Variant::Unchanged, Variant::Inserted, Variant::Gc][case % 4];
-        run_case(&format!("o{}", case), &wasm, v, &mut stats);
+        run_case_cfg(&format!("o{}", case), &wasm, v, case % 5 == 1, &mut stats);
     }
     // LEB-length boundaries of the function count and of the body size
     let shapes: &[(usize, usize)] = if tier == "thorough" { &[(1, 10), (2, 126), (2, 127), (2, 128), (2, 129), (127, 10), (128, 10), (129, 10), (300, 16383), (300, 16384), (300, 16385), (16383, 4), (16384, 4)] } else { &[(1, 10), (2, 127), (2, 128), (127, 10), (128, 10), (129, 200)] };
@@ -328,6 +376,13 @@ pub fn main(seed: u64, tier: &str, only: Option<&str>) {
         let wasm = many_with_imports(*nf, *pad, *ni);
         for v in [Variant::Unchanged, Variant::Inserted, Variant::Gc] {
             run_case(&format!("imany{}-{:?}", k, v), &wasm, v, &mut stats);
+        }
+    }
+    let eshapes: &[usize] = if tier == "thorough" { &[63, 64, 65, 127, 128, 129, 16383, 16384, 16385] } else { &[64, 127, 128, 129] };
+    for (k, size) in eshapes.iter().enumerate() {
+        let wasm = exact_with_locals(3, *size);
+        for v in [Variant::Unchanged, Variant::Inserted] {
+            run_case(&format!("exact{}-{:?}", k, v), &wasm, v, &mut stats);
         }
     }
     out::stat("offsets.cases", stats.cases);
